@@ -8,6 +8,7 @@ package main
 import (
 	"context"
 	"fmt"
+	"os"
 	"strings"
 	"time"
 
@@ -418,7 +419,14 @@ func main() {
 		Scenarios: scenarios,
 		Config:    config,
 		Run:       run,
-		Rule:      "mode E: 11 API scenarios (OpenUpstream, OpenDownstream, Write+Flush+Close, ReadDataPoints, ReadMetadata, SendMetadata, SendCall, SendCallAndWaitReplayCall, Upstream.Close, Downstream.Close, Conn.Close); at every message of the scenario received by the broker one behaviour from {drop, delay past the bound, misaddress, wrong-typed answer, silent, cut} (budget F) plus unsolicited stray chunks/metadata; each call has a 5 s context on the virtual clock; oracle: returns within the bound (slack 100 ms virtual), follow-up OpenDownstream + SendMetadata + closes complete, no library thread parked on a mutex at the end",
+		Static: func() ([]vlib.Violation, map[string]any) {
+			repo := os.Getenv("VERIF_REPO_PATH")
+			if repo == "" {
+				repo = "/repo"
+			}
+			return lockLemma(repo)
+		},
+		Rule: "mode E: 11 API scenarios (OpenUpstream, OpenDownstream, Write+Flush+Close, ReadDataPoints, ReadMetadata, SendMetadata, SendCall, SendCallAndWaitReplayCall, Upstream.Close, Downstream.Close, Conn.Close); at every message of the scenario received by the broker one behaviour from {drop, delay past the bound, misaddress, wrong-typed answer, silent, cut} (budget F) plus unsolicited stray chunks/metadata; each call has a 5 s context on the virtual clock; oracle: returns within the bound (slack 100 ms virtual), follow-up OpenDownstream + SendMetadata + closes complete, no library thread parked on a mutex at the end",
 		Assumptions: []string{
 			"keep-alive 1s/1s; upstream close timeout 3s; virtual time only advances at quiescence, so bounds are checked exactly",
 			"the lock-pairing lemma over control-flow paths is a separate, static part of this check (see evidence key lock_lemma)",
